@@ -287,7 +287,10 @@ def config_memoisation(ctx, L) -> list[dict]:
 
 
 def loc_counters(ctx) -> list[dict]:
-    """The SRP lines-of-code counters of the three languages: does each count only lines whose strip() is non-empty?"""
+    """The SRP lines-of-code counters of the three languages: does each count only lines whose strip() is non-empty?
+    The filter may be written in place (comprehension / loop condition) or in a private predicate it calls."""
+    from .. import inline
+
     repo = ctx.repo
     out = []
     cands = [f for f in repo.funcs_in("src.linters.srp.") if f.name in ("count_loc", "_node_loc") and f.cls is None or f.name == "_node_loc"]
@@ -296,11 +299,63 @@ def loc_counters(ctx) -> list[dict]:
         if f.qual in seen:
             continue
         seen.add(f.qual)
-        strips = [n for n in ast.walk(f.node) if isinstance(n, ast.Call) and call_name(n) in ("strip",)]
-        filt = [n for n in ast.walk(f.node) if isinstance(n, (ast.ListComp, ast.GeneratorExp)) and n.generators[0].ifs]
-        blank_filtered = bool(strips) and any(any(isinstance(x, ast.Call) and call_name(x) == "strip" for x in ast.walk(c)) or any(isinstance(x, ast.NamedExpr) for x in ast.walk(c)) for g in filt for c in g.generators[0].ifs)
-        raw_truthiness = any(isinstance(c, ast.Name) and isinstance(g.generators[0].target, ast.Name) and c.id == g.generators[0].target.id for g in filt for cond in g.generators[0].ifs for c in ([cond] + (cond.values if isinstance(cond, ast.BoolOp) else [])))
-        arithmetic_only = not filt
+        # (condition, function it lives in)
+        conds: list[tuple[ast.expr, Func]] = []
+        owners = [f] + inline.callees(repo, f)
+        for g in owners:
+            for n in ast.walk(g.node):
+                if isinstance(n, (ast.ListComp, ast.GeneratorExp, ast.SetComp)):
+                    for gen in n.generators:
+                        conds += [(c, g) for c in gen.ifs]
+                elif isinstance(n, ast.For):
+                    conds += [(x.test, g) for x in ast.walk(n) if isinstance(x, ast.If)]
+        # predicates called inside a condition contribute their return expressions
+        more: list[tuple[ast.expr, Func]] = []
+        for c, g in conds:
+            for call in [x for x in ast.walk(c) if isinstance(x, ast.Call)]:
+                h = inline.resolve_call(repo, g, call)
+                if h is not None and h.module.name.startswith("src"):
+                    more += [(r.value, h) for r in ast.walk(h.node) if isinstance(r, ast.Return) and r.value is not None]
+        conds += more
+
+        def stripped_names(g: Func) -> set[str]:
+            names = set()
+            for n in ast.walk(g.node):
+                if isinstance(n, ast.Assign) and isinstance(n.value, ast.Call) and call_name(n.value) == "strip":
+                    names |= {t.id for t in n.targets if isinstance(t, ast.Name)}
+                if isinstance(n, ast.NamedExpr) and isinstance(n.value, ast.Call) and call_name(n.value) == "strip" and isinstance(n.target, ast.Name):
+                    names.add(n.target.id)
+            return names
+
+        def truth_operands(e: ast.expr):
+            if isinstance(e, ast.BoolOp):
+                for v in e.values:
+                    yield from truth_operands(v)
+            elif isinstance(e, ast.UnaryOp) and isinstance(e.op, ast.Not):
+                yield from truth_operands(e.operand)
+            elif isinstance(e, ast.Call) and call_name(e) == "bool" and e.args:
+                yield from truth_operands(e.args[0])
+            else:
+                yield e
+
+        blank_filtered = False
+        raw_truthiness = False
+        for c, g in conds:
+            ok_names = stripped_names(g)
+            for op in truth_operands(c):
+                if isinstance(op, ast.NamedExpr):
+                    op_v = op.value
+                    if isinstance(op_v, ast.Call) and call_name(op_v) == "strip":
+                        blank_filtered = True
+                    continue
+                if isinstance(op, ast.Call) and call_name(op) == "strip":
+                    blank_filtered = True
+                elif isinstance(op, ast.Name):
+                    if op.id in ok_names:
+                        blank_filtered = True
+                    elif any(isinstance(t, ast.Name) and t.id == op.id for n in ast.walk(g.node) if isinstance(n, (ast.comprehension, ast.For)) for t in [n.target]) or op.id in {a.arg for a in g.node.args.args}:
+                        raw_truthiness = True   # the loop variable / the line parameter itself, unstripped
+        arithmetic_only = not conds
         out.append(dict(func=f.qual.replace("src.", "", 1), loc=f.loc, ok=blank_filtered and not raw_truthiness and not arithmetic_only,
                         detail="counts lines whose strip() is non-empty and not a comment" if blank_filtered and not raw_truthiness else ("end - start + 1: blank and comment lines count as code" if arithmetic_only else "the blank-line test is applied to the raw line, so whitespace-only lines count as code")))
     return out
@@ -364,6 +419,20 @@ def module_state_mutations(ctx) -> tuple[int, list[dict]]:
                 continue
             gl = {n for x in ast.walk(fn) if isinstance(x, ast.Global) for n in x.names}
             locs = {a.arg for a in fn.args.posonlyargs + fn.args.args + fn.args.kwonlyargs}
+            # names whose value depends on what the caller passed in (parameters, transitively through local assignments)
+            dep = set(locs) - {"self", "cls"}
+            changed = True
+            while changed:
+                changed = False
+                for x in ast.walk(fn):
+                    if isinstance(x, (ast.Assign, ast.AnnAssign)) and x.value is not None and any(isinstance(y, ast.Name) and y.id in dep for y in ast.walk(x.value)):
+                        for t in (x.targets if isinstance(x, ast.Assign) else [x.target]):
+                            for el in ast.walk(t):
+                                if isinstance(el, ast.Name) and isinstance(el.ctx, ast.Store) and el.id not in dep and el.id not in gl:
+                                    dep.add(el.id)
+                                    changed = True
+            def _dep(e) -> bool:
+                return e is not None and any(isinstance(y, ast.Name) and y.id in dep for y in ast.walk(e))
             for x in ast.walk(fn):
                 tg = []
                 if isinstance(x, ast.Assign):
@@ -378,16 +447,16 @@ def module_state_mutations(ctx) -> tuple[int, list[dict]]:
                     for el in ast.walk(t):
                         if isinstance(el, ast.Name) and isinstance(el.ctx, ast.Store):
                             if el.id in gl and el.id in glob:
-                                out.append(dict(module=m, func=fn.name, name=el.id, how="re-bound through `global`", line=x.lineno if hasattr(x, "lineno") else fn.lineno))
+                                out.append(dict(module=m, func=fn.name, name=el.id, how="re-bound through `global`", line=x.lineno if hasattr(x, "lineno") else fn.lineno, data=_dep(getattr(x, "value", None))))
                             elif el.id not in gl:
                                 locs.add(el.id)
             for x in ast.walk(fn):
                 if isinstance(x, ast.Call) and isinstance(x.func, ast.Attribute) and x.func.attr in MODULE_MUT and isinstance(x.func.value, ast.Name) and x.func.value.id in glob and x.func.value.id not in locs:
-                    out.append(dict(module=m, func=fn.name, name=x.func.value.id, how=f".{x.func.attr}()", line=x.lineno))
+                    out.append(dict(module=m, func=fn.name, name=x.func.value.id, how=f".{x.func.attr}()", line=x.lineno, data=any(_dep(a) for a in list(x.args) + [k.value for k in x.keywords])))
                 if isinstance(x, (ast.Assign, ast.AugAssign, ast.Delete)):
                     for t in (x.targets if isinstance(x, (ast.Assign, ast.Delete)) else [x.target]):
                         if isinstance(t, ast.Subscript) and isinstance(t.value, ast.Name) and t.value.id in glob and t.value.id not in locs:
-                            out.append(dict(module=m, func=fn.name, name=t.value.id, how="item assignment", line=x.lineno))
+                            out.append(dict(module=m, func=fn.name, name=t.value.id, how="item assignment", line=x.lineno, data=_dep(t.slice) or _dep(getattr(x, "value", None))))
     return n_glob, out
 
 
